@@ -1,11 +1,143 @@
+/-
+Driver of the C01 correspondence stream: runs the wire-decoding model on a case line and prints
+the canonical field-by-field dump (the harness prints the same dump from the real values).
+
+  name   <buf> <pos>          Name::read at index pos
+  rdata  <type> <buf> <pos>   RData::read(decoder at pos, type)
+  record <buf> <pos>          Record::read at index pos
+  msg    <buf>                Message::from_vec
+  req    <buf>                hickory_server Request::from_bytes
+-/
 import HickoryVerif.Drv.Proto
+import HickoryVerif.Model.Wire
 
 namespace HickoryVerif.Drv.C01
-open HickoryVerif HickoryVerif.Drv
+open HickoryVerif HickoryVerif.Drv HickoryVerif.Wire
 
 abbrev State := Unit
 def init : State := ()
 
-def step (s : State) (_toks : List String) : State × String := (s, "bad-op")
+/-- unmodelled RDATA codecs: never agree silently -/
+def opqDrv (t : Nat) : Rd Bytes := Rd.panic ("unmodelled:" ++ toString t)
+
+def showOptVal : OptVal → String
+  | .dau algs => "D" ++ toHex algs
+  | .subnet f sp sc addr => "S" ++ toString f ++ "." ++ toString sp ++ "." ++ toString sc ++ "." ++ toHex addr
+  | .nsid d => "N" ++ toHex d
+  | .unknown c d => "U" ++ toString c ++ "." ++ toHex d
+
+def showOpts (os : List OptEntry) : String :=
+  ";".intercalate (os.map fun o => toString o.code ++ "=" ++ showOptVal o.val)
+
+def showTypes (ts : List Nat) : String := ".".intercalate (ts.map toString)
+
+def showSvcVal : SvcVal → String
+  | .mandatory ks => "M" ++ ".".intercalate (ks.map toString)
+  | .alpn xs => "A" ++ "|".intercalate (xs.map toHex)
+  | .noDefaultAlpn => "N"
+  | .port p => "P" ++ toString p
+  | .ipv4hint a => "4" ++ toHex a
+  | .ech d => "E" ++ toHex d
+  | .ipv6hint a => "6" ++ toHex a
+  | .unknown d => "U" ++ toHex d
+
+def showRData : RData → String
+  | .a b => "A:" ++ toHex b
+  | .aaaa b => "AAAA:" ++ toHex b
+  | .name n => "N:" ++ showName n
+  | .mx p n => "MX:" ++ toString p ++ ":" ++ showName n
+  | .soa m r s rf rt ex mi =>
+    "SOA:" ++ showName m ++ ":" ++ showName r ++ ":" ++ toString s ++ ":" ++ toString rf ++ ":" ++
+      toString rt ++ ":" ++ toString ex ++ ":" ++ toString mi
+  | .txt ss => "TXT:" ++ "|".intercalate (ss.map toHex)
+  | .srv p w port n => "SRV:" ++ toString p ++ ":" ++ toString w ++ ":" ++ toString port ++ ":" ++ showName n
+  | .hinfo c o => "HINFO:" ++ toHex c ++ ":" ++ toHex o
+  | .null d => "NULL:" ++ toHex d
+  | .unknown c d => "UNK:" ++ toString c ++ ":" ++ toHex d
+  | .opt os => "OPT:" ++ showOpts os
+  | .update0 t => "UPD0:" ++ toString t
+  | .zero => "ZERO"
+  | .tsig alg time fudge mac oid err other =>
+    "TSIG:" ++ showName alg ++ ":" ++ toString time ++ ":" ++ toString fudge ++ ":" ++ toHex mac ++ ":" ++
+      toString oid ++ ":" ++ toString err ++ ":" ++ toHex other
+  | .ds tag alg dt d => "DS:" ++ toString tag ++ ":" ++ toString alg ++ ":" ++ toString dt ++ ":" ++ toHex d
+  | .dnskey cd flags alg k =>
+    "DNSKEY:" ++ toString flags ++ ":" ++ toString alg ++ ":" ++ (if cd && alg == 0 then "!" else toHex k)
+  | .sig c a l o e i t n sg =>
+    "SIG:" ++ toString c ++ ":" ++ toString a ++ ":" ++ toString l ++ ":" ++ toString o ++ ":" ++ toString e ++
+      ":" ++ toString i ++ ":" ++ toString t ++ ":" ++ showName n ++ ":" ++ toHex sg
+  | .nsec n ts => "NSEC:" ++ showName n ++ ":" ++ showTypes ts
+  | .nsec3 oo it salt hash ts =>
+    "NSEC3:" ++ showBool oo ++ ":" ++ toString it ++ ":" ++ toHex salt ++ ":" ++ toHex hash ++ ":" ++ showTypes ts
+  | .nsec3param oo it salt => "NSEC3PARAM:" ++ showBool oo ++ ":" ++ toString it ++ ":" ++ toHex salt
+  | .cert ct tag alg d => "CERT:" ++ toString ct ++ ":" ++ toString tag ++ ":" ++ toString alg ++ ":" ++ toHex d
+  | .csync serial flags ts => "CSYNC:" ++ toString serial ++ ":" ++ toString flags ++ ":" ++ showTypes ts
+  | .tlsa u sl m d => "TLSA:" ++ toString u ++ ":" ++ toString sl ++ ":" ++ toString m ++ ":" ++ toHex d
+  | .sshfp a f d => "SSHFP:" ++ toString a ++ ":" ++ toString f ++ ":" ++ toHex d
+  | .openpgpkey d => "OPENPGPKEY:" ++ toHex d
+  | .key flags proto alg k => "KEY:" ++ toString flags ++ ":" ++ toString proto ++ ":" ++ toString alg ++ ":" ++ toHex k
+  | .caa crit res tag v => "CAA:" ++ showBool crit ++ ":" ++ toString res ++ ":" ++ toHex tag ++ ":" ++ toHex v
+  | .svcb prio t ps =>
+    "SVCB:" ++ toString prio ++ ":" ++ showName t ++ ":" ++
+      ";".intercalate (ps.map fun (k, v) => toString k ++ "=" ++ showSvcVal v)
+  | .naptr o p f sv re n =>
+    "NAPTR:" ++ toString o ++ ":" ++ toString p ++ ":" ++ toHex f ++ ":" ++ toHex sv ++ ":" ++ toHex re ++ ":" ++ showName n
+  | .opaque t v => "X" ++ toString t ++ ":" ++ toHex v
+
+def showRecord (r : Record) : String :=
+  "R(" ++ showName r.name ++ "," ++ toString r.rtype ++ "," ++ toString r.cls ++ "," ++
+    toString r.ttl ++ "," ++ showRData r.rdata ++ ")"
+
+def showQuery (q : Query) : String :=
+  "Q(" ++ showName q.name ++ "," ++ toString q.qtype ++ "," ++ toString q.qclass ++ ")"
+
+def showMd (m : Metadata) : String :=
+  "H(" ++ toString m.id ++ "," ++ showBool m.qr ++ "," ++ toString m.op ++ "," ++ showBool m.aa ++ "," ++
+    showBool m.tc ++ "," ++ showBool m.rd ++ "," ++ showBool m.ra ++ "," ++ showBool m.ad ++ "," ++
+    showBool m.cd ++ "," ++ toString m.rcode ++ ")"
+
+def showEdns : Option Edns → String
+  | none => "-"
+  | some e =>
+    toString e.rcodeHigh ++ "," ++ toString e.version ++ "," ++ showBool e.dnssecOk ++ "," ++
+      toString e.z ++ "," ++ toString e.maxPayload ++ "," ++ showOpts e.options
+
+def showSig : Option Record → String
+  | none => "-"
+  | some r => showRecord r
+
+def showRecs (rs : List Record) : String := ",".intercalate (rs.map showRecord)
+
+def showMessage (m : Message) : String :=
+  showMd m.md ++ " Q[" ++ ",".intercalate (m.queries.map showQuery) ++ "] AN[" ++ showRecs m.answers ++
+    "] NS[" ++ showRecs m.authorities ++ "] AR[" ++ showRecs m.additionals ++ "] SIG[" ++
+    showSig m.signature ++ "] EDNS[" ++ showEdns m.edns ++ "]"
+
+def showRequest (m : Request) : String :=
+  showMd m.md ++ " Q[" ++ showQuery m.query ++ "] RAW[" ++ toHex m.original ++ "] AN[" ++
+    showRecs m.answers ++ "] NS[" ++ showRecs m.authorities ++ "] AR[" ++ showRecs m.additionals ++
+    "] SIG[" ++ showSig m.signature ++ "] EDNS[" ++ showEdns m.edns ++ "]"
+
+def handle (toks : List String) : Option String :=
+  match toks with
+  | ["name", buf, pos] => do
+    let buf ← parseHex buf; let pos ← pos.toNat?
+    pure (showOutcome (fun (n, p) => showName n ++ " " ++ toString p) (Rd.run Rd.name buf pos))
+  | ["rdata", t, buf, pos] => do
+    let t ← t.toNat?; let buf ← parseHex buf; let pos ← pos.toNat?
+    pure (showOutcome (fun (r, _) => showRData r) (Rd.run (readRData opqDrv t) buf pos))
+  | ["record", buf, pos] => do
+    let buf ← parseHex buf; let pos ← pos.toNat?
+    pure (showOutcome (fun (r, p) => showRecord r ++ " " ++ toString p) (Rd.run (readRecord opqDrv) buf pos))
+  | ["msg", buf] => do
+    let buf ← parseHex buf
+    pure (showOutcome (fun (m, _) => showMessage m) (Rd.run (readMessage opqDrv) buf 0))
+  | ["req", buf] => do
+    let buf ← parseHex buf
+    pure (showOutcome (fun (m, _) => showRequest m) (Rd.run (readRequest opqDrv) buf 0))
+  | _ => none
+
+def step (s : State) (toks : List String) : State × String :=
+  (s, (handle toks).getD "bad-op")
 
 end HickoryVerif.Drv.C01
